@@ -224,6 +224,12 @@ def judge(case, res, model):
     if not refs:
         # hawk <-> model is still a meaningful tie when hawk ran cleanly
         if h["err"] == "" and obs(h) != mv:
+            # when the two references differ from each other and hawk behaves like one of them while the model behaves
+            # like the other, the construct is one POSIX leaves open (e.g. `A[y] = (getline t)` with y changed by the
+            # operand assignment the getline reaches: subscript first in mawk, right-hand side first in gawk and hawk):
+            # neither side is wrong and the tie says nothing
+            if (ref_ok(g) and obs(h) == obs(g) and ref_ok(m) and mv == obs(m)) or (ref_ok(m) and obs(h) == obs(m) and ref_ok(g) and mv == obs(g)):
+                return dict(kind="refs-disagree", detail="hawk and the model each side with one reference")
             return dict(kind="model-vs-hawk", detail="references unusable")
         return dict(kind="refs-disagree", detail="")
     ref = obs(g)
